@@ -1817,11 +1817,12 @@ macro_rules! mini_vec {
     );
     ($elem:expr; $n:expr) => {
         {
+            let elem = $elem;
             let len = $n;
             let mut tmp = $crate::MiniVec::with_capacity(len);
 
             for idx in 0..len {
-                unsafe { tmp.unsafe_write(idx, $elem.clone()) };
+                unsafe { tmp.unsafe_write(idx, elem.clone()) };
             }
 
 
